@@ -21,6 +21,18 @@ from ..util._expr import Expr, UnaryWrapper, Symbol
 _molar = getattr(default_units, "molar", 1)  # makes module importable.
 
 
+def _pure_number(arg):
+    """Rescales a dimensionless quantity (e.g. kJ/J or K/mK) to a pure number.
+
+    Functions such as ``math.exp`` read the bare magnitude of their argument.
+    Plain numbers, arrays and symbolic expressions are returned unchanged.
+    """
+    try:
+        return arg.simplified
+    except AttributeError:
+        return arg
+
+
 class RateExpr(Expr):
     """Baseclass for rate expressions, see source code of e.g. MassAction & Radiolytic."""
 
@@ -264,11 +276,7 @@ class Arrhenius(Expr):
 
     def __call__(self, variables, backend=math, **kwargs):
         A, Ea_over_R = self.all_args(variables, backend=backend, **kwargs)
-        try:
-            Ea_over_R = Ea_over_R.simplified
-        except AttributeError:
-            pass
-        return A * backend.exp(-Ea_over_R / variables["temperature"])
+        return A * backend.exp(_pure_number(-Ea_over_R / variables["temperature"]))
 
 
 class Eyring(Expr):
@@ -292,7 +300,12 @@ class Eyring(Expr):
     def __call__(self, variables, backend=math, **kwargs):
         c0, c1, conc0 = self.all_args(variables, backend=backend, **kwargs)
         T = variables["temperature"]
-        return c0 * T * backend.exp(-c1 / T) * conc0 ** (1 - kwargs["reaction"].order())
+        return (
+            c0
+            * T
+            * backend.exp(_pure_number(-c1 / T))
+            * conc0 ** (1 - kwargs["reaction"].order())
+        )
 
 
 class EyringHS(Expr):
@@ -319,7 +332,7 @@ class EyringHS(Expr):
             kB
             / h
             * T
-            * backend.exp(-(dH - T * dS) / (R * T))
+            * backend.exp(_pure_number(-(dH - T * dS) / (R * T)))
             * c0 ** (1 - reaction.order())
         )
 
@@ -347,4 +360,6 @@ class SinTemp(Expr):
 
     def __call__(self, variables, backend=math, **kwargs):
         Tbase, Tamp, angvel, phase = self.all_args(variables, backend=backend, **kwargs)
-        return Tbase + Tamp * backend.sin(angvel * variables["time"] + phase)
+        return Tbase + Tamp * backend.sin(
+            _pure_number(angvel * variables["time"]) + phase
+        )
